@@ -24,6 +24,12 @@ def q(s: str) -> str:
     return "".join(chr(b) if chr(b).isascii() and chr(b).isalnum() else f"%{b:02x}" for b in s.encode())
 
 
+def q_min(s: str) -> str:
+    """Inner-level style of the sample file: only the characters that are structural in a crypto dict are escaped
+    ('%', '=', ':', ',', '(', ')' and non-ASCII); '/', '+', '-' stay literal."""
+    return "".join(chr(b) if (chr(b).isascii() and (chr(b).isalnum() or chr(b) in "/+-_.")) else f"%{b:02x}" for b in s.encode())
+
+
 def pkcs7(data: bytes) -> bytes:
     n = 16 - len(data) % 16
     return data + bytes([n]) * n
@@ -47,14 +53,16 @@ def derive(pair: dict) -> bytes:
 
 
 def pair_fields(pair: dict, data_key: bytes, data_cipher: str) -> dict:
-    crypto_dict = f"type=key:cipher={data_cipher}:key={q(base64.b64encode(data_key).decode())}"
+    qi = q_min if pair.get("inner_quote", "min") == "min" else q
+    crypto_dict = f"type=key:cipher={qi(data_cipher)}:key={qi(base64.b64encode(data_key).decode())}"
     return seal(derive(pair), bytes.fromhex(pair["iv"]), crypto_dict.encode(), pair["mac"])
 
 
 def pair_text(pair: dict, fields: dict, salt: bytes | None = None) -> str:
     salt = bytes.fromhex(pair["salt"]) if salt is None else salt
-    d = (f"pass2key={q(pair['kdf'])}:cipher={q(pair['cipher'])}:rounds={q(str(pair['rounds']))}:"
-         f"salt={q(base64.b64encode(salt).decode())}")
+    qi = q_min if pair.get("inner_quote", "min") == "min" else q
+    d = (f"pass2key={qi(pair['kdf'])}:cipher={qi(pair['cipher'])}:rounds={qi(str(pair['rounds']))}:"
+         f"salt={qi(base64.b64encode(salt).decode())}")
     return f"pair/(phrase/{q(pair['id'])}/{q(d)},{q(pair['mac'])},{q(base64.b64encode(blob(fields)).decode())})"
 
 
